@@ -127,9 +127,33 @@ func (s *Stream) ReadMessage() ([]byte, error) {
 		return nil, fmt.Errorf("message too large: %d > %d", n, MaxMsgSize)
 	}
 
-	buf := make([]byte, n)
-	if err := s.ReadFull(buf); err != nil {
+	return readAnnounced(s, n)
+}
+
+// readAnnounced reads the n payload bytes a peer announced. The payload is
+// read as it arrives: the announced length (up to MaxMsgSize) must not size an
+// allocation before the bytes are there.
+func readAnnounced(r io.Reader, n uint32) ([]byte, error) {
+	buf, err := io.ReadAll(io.LimitReader(r, int64(n)))
+	if err != nil {
 		return nil, err
 	}
+	if uint32(len(buf)) != n {
+		return nil, io.ErrUnexpectedEOF
+	}
 	return buf, nil
+}
+
+// ReadMessageFrame reads one [len][payload] message from any io.Reader (the
+// counterpart of WriteMessageFrame).
+func ReadMessageFrame(r io.Reader) ([]byte, error) {
+	var hdr [4]byte
+	if _, err := io.ReadFull(r, hdr[:]); err != nil {
+		return nil, err
+	}
+	n := binary.LittleEndian.Uint32(hdr[:])
+	if n > MaxMsgSize {
+		return nil, fmt.Errorf("message too large: %d > %d", n, MaxMsgSize)
+	}
+	return readAnnounced(r, n)
 }
